@@ -133,10 +133,26 @@ Proof.
   apply IH; [exact H2|]. apply set_item_valid; assumption.
 Qed.
 
+Lemma pop_first_valid : forall h, map_valid (as_list h) -> map_valid (as_list (snd (pop_first h))).
+Proof.
+  intros h Hm. unfold pop_first. destruct (keys h) as [|k ks]; [exact Hm|].
+  pose proof (get_item_store k h) as E. destruct (get_item k h) as [r h1]. simpl in E.
+  destruct r; simpl; try (rewrite E; exact Hm).
+  unfold del_item. destruct (d_mem (normalize k) (as_list h1)); simpl; rewrite E; [|exact Hm].
+  apply d_del_Forall. exact Hm.
+Qed.
+Lemma clear_loop_valid : forall fuel h, map_valid (as_list h) -> map_valid (as_list (snd (clear_loop fuel h))).
+Proof.
+  induction fuel as [|f IH]; intros h Hm; cbn [clear_loop].
+  - destruct (as_list h) eqn:Ea; simpl; rewrite Ea; exact Hm.
+  - pose proof (pop_first_valid h Hm) as H1. destruct (pop_first h) as [r h1]. simpl in H1.
+    destruct r as [|e| | | | | | |]; try exact H1; [destruct e; exact H1|apply IH; exact H1].
+Qed.
+
 Lemma step_valid : forall o h, valid_op o = true -> map_valid (as_list h) ->
   map_valid (as_list (snd (step o h))).
 Proof.
-  intros o h Ho Hm. destruct o as [n v|n v|n|n|n|n| | |l| |n|n|n v| | |l]; simpl; try exact Hm.
+  intros o h Ho Hm. destruct o as [n v|n v|n|n|n|n| | |l| |n|n|n v| | |l| | | ]; simpl; try exact Hm.
   - apply add_valid. exact Hm.
   - simpl in Ho. apply andb_true_iff in Ho as [Ht Hv]. apply d_set_Forall; [exact Hm|].
     split; simpl; [apply normalize_token; exact Ht|constructor; [exact Hv|constructor]].
@@ -154,10 +170,14 @@ Proof.
   - simpl in Ho. apply andb_true_iff in Ho as [Ht Hv].
     unfold set_default. pose proof (get_item_store n h) as E. destruct (get_item n h) as [r h1]. simpl in E.
     assert (Hm1 : map_valid (as_list h1)) by (rewrite E; exact Hm).
-    destruct r as [|e| | | | | |]; simpl; try exact Hm1. destruct e; simpl; try exact Hm1.
+    destruct r as [|e| | | | | | |]; simpl; try exact Hm1. destruct e; simpl; try exact Hm1.
     apply set_item_valid; assumption.
   - unfold items. rewrite items_go_store. exact Hm.
   - simpl in Ho. apply update_all_valid; assumption.
+  - apply pop_first_valid. exact Hm.
+  - unfold clear. apply clear_loop_valid. exact Hm.
+  - unfold values. pose proof (items_go_store (keys h) [] h) as E. fold (items h) in E.
+    destruct (items h) as [r h1]. simpl in *. rewrite E. exact Hm.
 Qed.
 
 Lemma parse_lines_valid : forall ls h, map_valid (as_list h) -> map_valid (as_list (snd (parse_lines ls h))).
